@@ -3,6 +3,7 @@ from __future__ import annotations
 
 import itertools
 import math
+from fractions import Fraction
 
 from hypothesis import strategies as st
 
@@ -59,6 +60,7 @@ FLOORS = {
     'general:multi': (0.40, 'general:case'), 'general:untyped': (0.15, 'general:case'),
     'order:triple-all-comparable': (0.50, 'order:triple'), 'ebv:multi': (0.10, 'ebv:case'), 'logic:with-error-atom': (0.15, 'logic:case'),
     'pathlogic:abs-first-then-relative@inner': (0.25, 'pathlogic:case'), 'pathlogic:inner-context': (0.70, 'pathlogic:case'),
+    'value:durations-microseconds-apart': (0.04, 'value:pair'), 'order:durations-microseconds-apart': (0.06, 'order:triple'),
     'compat:boolean-vs-non-0-1': (0.25, 'compat:case'), 'compat:multi': (0.25, 'compat:case'), 'era:across-era': (0.30, 'era:pair'),
     'tzhistory:naive-vs-aware': (0.50, 'tzhistory:case'), 'tzhistory:timezone-changes': (0.60, 'tzhistory:case'),
 }
@@ -317,6 +319,16 @@ def _special(discs, start, family, types, op, obs, a, b, mode, tz, close, genera
             d.bucket = f'C07/{tag}/{types}/{op}' if tag == 'missing-XPTY0004' else f'C07/{tag}/general1/{op}'
 
 
+def _micro_apart(atoms) -> bool:
+    """two xs:dayTimeDuration values of at least one hour that differ by 1..10 microseconds"""
+    vals = []
+    for x in atoms:
+        if x[0] != 'dayTimeDuration':
+            return False
+        vals.append(C.parse_duration(x[0], x[1])[1])
+    return any(abs(p) >= 3600 and 0 < abs(p - q) <= Fraction(10, 10 ** 6) for p in vals for q in vals)
+
+
 def judge_value(case, rec: Recorder | None = None) -> list[Disc]:
     mode, a, b, tz = case['mode'], case['a'], case['b'], case.get('tz')
     discs: list[Disc] = []
@@ -357,6 +369,8 @@ def judge_value(case, rec: Recorder | None = None) -> list[Disc]:
             classes.append(f'{pre}:comparable')
         if tz:
             classes.append(f'{pre}:implicit-tz')
+        if _micro_apart([a, b]):
+            classes.append(f'{pre}:durations-microseconds-apart')
         rec.case(['value', mode, tz, a, b], nontrivial=_is_nontrivial([a], [b]), classes=classes, n=n,
                  sample={'check': 'value', 'mode': mode, 'tz': tz, 'a': sa, 'b': sb})
     return discs
@@ -525,7 +539,8 @@ def judge_order(case, rec: Recorder | None = None) -> list[Disc]:
             seen.add(d.bucket)
             uniq.append(d)
     if rec is not None:
-        classes = ['order:triple', f'order:kind-{kind}'] + (['order:triple-all-comparable'] if ordered else [])
+        classes = ['order:triple', f'order:kind-{kind}'] + (['order:triple-all-comparable'] if ordered else []) + \
+            (['order:durations-microseconds-apart'] if _micro_apart(xs) else [])
         rec.case(['order', mode, tz, xs], nontrivial=len({tuple(x) for x in xs}) >= 2, classes=classes, n=len(memo),
                  sample={'check': 'order', 'mode': mode, 'xs': txt})
     return uniq
@@ -1020,9 +1035,17 @@ _TRIPLE_SAME = _same_kind_atoms(3)
 _ANY = A.any_atom()
 
 
+_DUR2, _DUR3 = A.duration_family(2), A.duration_family(3)
+
+
 @st.composite
 def value_case(draw):
-    if draw(st.integers(0, 9)) < 6:
+    k = draw(st.integers(0, 19))
+    if k < 3:
+        a, b = draw(_DUR2)
+        if draw(st.booleans()):
+            a, b = b, a
+    elif k < 13:
         a, b = draw(_PAIR_SAME)
     else:
         a, b = draw(_ANY), draw(_ANY)
@@ -1060,7 +1083,7 @@ general10_case = st.fixed_dictionaries({'a': _V10, 'b': _V10})
 
 @st.composite
 def order_case(draw):
-    return {'mode': draw(_mode), 'tz': draw(_tz), 'xs': draw(_TRIPLE_SAME)}
+    return {'mode': draw(_mode), 'tz': draw(_tz), 'xs': draw(_DUR3 if draw(st.integers(0, 4)) == 0 else _TRIPLE_SAME)}
 
 
 _EBV_ITEM = st.one_of(st.just('node'), _ANY, st.sampled_from(['boolean', 'string', 'integer', 'double', 'untypedAtomic', 'decimal',
